@@ -534,7 +534,9 @@ func (d *dimAnalyzer) checkedLookups(fn *ssa.Function) map[string]string {
 				tested := false
 				for _, r := range *x.Referrers() {
 					if ex, ok := r.(*ssa.Extract); ok && ex.Index == 1 {
-						if ifi, _ := ifOn(ex); ifi != nil {
+						// the not-found arm must FAIL (an `if v, ok := m[k]; ok { add } else { set }` accumulator
+						// tests the flag too, and resolves nothing — catalogue mutant R6M01)
+						if ifi, neg := ifOn(ex); ifi != nil && notFoundArmFails(ifi, neg) {
 							tested = true
 						}
 					}
@@ -1163,7 +1165,7 @@ func lookupHelperParams(fn *ssa.Function) (mapIdx, keyIdx int, ok bool) {
 			}
 			for _, r := range *lk.Referrers() {
 				if ex, isEx := r.(*ssa.Extract); isEx && ex.Index == 1 {
-					if ifi, _ := ifOn(ex); ifi != nil {
+					if ifi, neg := ifOn(ex); ifi != nil && notFoundArmFails(ifi, neg) {
 						return mi, ki, true
 					}
 				}
@@ -1171,4 +1173,36 @@ func lookupHelperParams(fn *ssa.Function) (mapIdx, keyIdx int, ok bool) {
 		}
 	}
 	return 0, 0, false
+}
+
+// notFoundArmFails: the branch taken when the comma-ok flag is false ends (possibly after plain jumps) in a return
+// whose error result is not the nil constant.
+func notFoundArmFails(ifi *ssa.If, neg bool) bool {
+	b := ifi.Block()
+	if len(b.Succs) != 2 {
+		return false
+	}
+	nf := b.Succs[1]
+	if neg {
+		nf = b.Succs[0]
+	}
+	for i := 0; i < 4 && nf != nil; i++ {
+		last := nf.Instrs[len(nf.Instrs)-1]
+		switch t := last.(type) {
+		case *ssa.Return:
+			ei := errResultIndex(nf.Parent().Signature)
+			if ei < 0 || ei >= len(t.Results) {
+				return false
+			}
+			if k, isK := t.Results[ei].(*ssa.Const); isK && k.Value == nil {
+				return false
+			}
+			return true
+		case *ssa.Jump:
+			nf = nf.Succs[0]
+		default:
+			return false
+		}
+	}
+	return false
 }
